@@ -119,13 +119,48 @@ let judge_line (line : string) (impl : string) : string =
                                        res := Printf.sprintf "bad:op%d changed-%s" i (hex_of_string k)) changed
                        | None -> ())
                   | XEval src ->
-                    (* only identifiers that occur in the expression can change *)
+                    (* only identifiers that are the operand of an assigning operator can change: a name, possibly in redundant
+                       parentheses, directly left of = op= ++ -- or directly right of ++ -- (both sides of ++ / -- are taken, a superset) *)
                     let txt = string_of_bytes src in
-                    let ids = ref [] and b = Buffer.create 8 in
-                    let flush () = if Buffer.length b > 0 then (ids := Buffer.contents b :: !ids; Buffer.clear b) in
-                    String.iter (fun c -> if (c >= 'a' && c <= 'z') || (c >= 'A' && c <= 'Z') || (c >= '0' && c <= '9') || c = '_' || Char.code c >= 128
-                                  then Buffer.add_char b c else flush ()) txt;
-                    flush ();
+                    let n = String.length txt in
+                    let isid c = (c >= 'a' && c <= 'z') || (c >= 'A' && c <= 'Z') || (c >= '0' && c <= '9') || c = '_' || Char.code c >= 128 in
+                    let toks = ref [] in
+                    let pos = ref 0 in
+                    let ops3 = ["<<="; ">>="] and ops2 = ["++"; "--"; "<<"; ">>"; "<="; ">="; "=="; "!="; "&&"; "||"; "*="; "/="; "%="; "+="; "-="; "&="; "^="; "|="] in
+                    while !pos < n do
+                      let c = txt.[!pos] in
+                      if c = ' ' || c = '\t' || c = '\n' then incr pos
+                      else if isid c then begin
+                        let j = ref !pos in while !j < n && isid txt.[!j] do incr j done;
+                        toks := ("id", String.sub txt !pos (!j - !pos)) :: !toks; pos := !j end
+                      else if !pos + 3 <= n && List.mem (String.sub txt !pos 3) ops3 then (toks := ("op", String.sub txt !pos 3) :: !toks; pos := !pos + 3)
+                      else if !pos + 2 <= n && List.mem (String.sub txt !pos 2) ops2 then (toks := ("op", String.sub txt !pos 2) :: !toks; pos := !pos + 2)
+                      else (toks := ("op", String.make 1 c) :: !toks; incr pos)
+                    done;
+                    let ta = Array.of_list (List.rev !toks) in
+                    let m = Array.length ta in
+                    let ids = ref [] in
+                    let isop k s = k >= 0 && k < m && ta.(k) = ("op", s) in
+                    let left_target k =
+                      (* ta.(k) is the operator: name (in k parentheses) directly to its left *)
+                      let j = ref (k - 1) and c = ref 0 in
+                      while isop !j ")" do decr j; incr c done;
+                      if !j >= 0 && fst ta.(!j) = "id" then begin
+                        let ok = ref true in
+                        for d = 1 to !c do if not (isop (!j - d) "(") then ok := false done;
+                        if !ok then ids := snd ta.(!j) :: !ids end in
+                    let right_target k =
+                      let j = ref (k + 1) and c = ref 0 in
+                      while isop !j "(" do incr j; incr c done;
+                      if !j < m && fst ta.(!j) = "id" then begin
+                        let ok = ref true in
+                        for d = 1 to !c do if not (isop (!j + d) ")") then ok := false done;
+                        if !ok then ids := snd ta.(!j) :: !ids end in
+                    Array.iteri (fun k t ->
+                        match t with
+                        | ("op", o) when List.mem o ["="; "*="; "/="; "%="; "+="; "-="; "<<="; ">>="; "&="; "^="; "|="] -> left_target k
+                        | ("op", o) when o = "++" || o = "--" -> left_target k; right_target k
+                        | _ -> ()) ta;
                     (match !cur with
                      | Some before ->
                        let changed = List.filter (fun (k, v) -> List.assoc_opt k before <> Some v) after
